@@ -18,7 +18,7 @@ TRUSTED = [
     "derive(PartialEq) compares every field; [u8; N] == [u8; N] compares every byte",
 ]
 NOT_DECIDED = ["that a changed hash input changes the SHA-1 output", "that a different password yields a different verifier"]
-FLOORS = {"gate": 2, "whole-value": 2, "operands": 2, "error-content": 2, "who-may-construct": 2, "transcript": 2, "ok-content": 2}
+FLOORS = {"binding": 5, "gate": 2, "whole-value": 2, "operands": 2, "error-content": 2, "who-may-construct": 2, "transcript": 2, "ok-content": 2}
 
 
 def applicable(feats):
@@ -95,6 +95,14 @@ def gate_rule(ctx, rep, fn, cap_adt, presented_param, expect_computed, err_order
 
 def check(ctx, rep):
     fb = ctx.fb
+    # "determined by the stored verifier, salt and username and the two public keys" / "another
+    # password or username is refused": necessary that x, v, M1 and M2 take ALL of each of
+    # these inputs - the transcript and formula obligations C03 decides for those functions
+    from rules import c03
+    binding = ("srp_internal::calculate_x", "srp_internal::calculate_password_verifier", "srp_internal::calculate_client_proof", "srp_internal_client::calculate_client_proof_with_custom_value", "srp_internal::calculate_server_proof")
+    rf = util.Refile(rep, "binding", {"transcript", "formula"}, lambda fn: fn in binding)
+    c03.transcripts(ctx, rf)
+    c03.formulas(ctx, rf)
     R = roles.srp_roles(ctx)
     rp = roles.inv(R["SrpProof"])
     for need in ("U", "B", "salt", "b", "v"):
